@@ -223,7 +223,12 @@ func HandleMessages(startTime time.Time, reader io.Reader, writer io.Writer, con
 	writer.Write([]byte("18 seconds ahead of UTC\n\n"))
 
 	messageChan := make(chan rtcm.Message, 2)
-	go DisplayMessages(messageChan, writer)
+	// displayDone is closed when DisplayMessages has written all the messages.
+	displayDone := make(chan struct{})
+	go func() {
+		defer close(displayDone)
+		DisplayMessages(messageChan, writer)
+	}()
 
 	channels := make([]chan rtcm.Message, 0)
 	channels = append(channels, messageChan)
@@ -231,6 +236,10 @@ func HandleMessages(startTime time.Time, reader io.Reader, writer io.Writer, con
 	appCore.HandleMessagesUntilEOF(startTime, bufferedReader)
 
 	close(messageChan)
+
+	// Wait until all the messages have been written.  (The caller exits
+	// as soon as this returns.)
+	<-displayDone
 }
 
 // DisplayMessages receives messages from the given channel, produces a
